@@ -97,6 +97,9 @@ def outcomes():
         o["raise-" + exc.__name__] = (lambda exc=exc: (_ for _ in ()).throw(exc(MARK + "-" + exc.__name__)), "bare500")
     for nm, val in (("None", None), ("bytes", (MARK + "b").encode()), ("str", MARK + "s"), ("int", 0), ("dict", {})):
         o["ret-" + nm] = (lambda val=val: val, "bare500")
+    # a message that passes for a response but cannot be serialised (the failure only shows when it is being sent)
+    o["ret-msg-strpayload"] = (lambda: Message(code=codes.CONTENT, payload=MARK + "-text"), "bare500")
+    o["ret-msg-intpayload"] = (lambda: Message(code=codes.CONTENT, payload=4711), "bare500")
     o["raise-unprintable"] = (lambda: (_ for _ in ()).throw(Unprintable()), "bare500")
     o["raise-unprintable-arg"] = (lambda: (_ for _ in ()).throw(ValueError(UnprintableArg())), "bare500")
     o["raise-quacking"] = (lambda: (_ for _ in ()).throw(QuacksRenderable()), "bare500")
@@ -211,6 +214,11 @@ def run_cell(res, oname, slow, method, con, situation):
             acks = [d for d in w.sent if d.src == SRV and d.dst == P1 and d.data[0] & 0x30 == 0x20 and d.data[2:4] == b"\x30\x01"]
             if con and len(acks) != 1:
                 ok = False
+        if oname.startswith("ret-msg-") and nr is not None and nr & 2:
+            # the handler's (unserialisable) 2.xx is not wanted in the first place: never serialising it and staying silent is as good
+            # as noticing the mistake and suppressing or sending the 5.00
+            acks = [d for d in w.sent if d.src == SRV and d.dst == P1 and d.data[0] & 0x30 == 0x20 and d.data[2:4] == b"\x30\x01"]
+            ok = ok or (not fin and (not con or len(acks) == 1))
         if ok and exp == "bare500" and situation in ("known", "obs-declined", "obs-accepted") and fin[0][4]:
             ok = False
         if not ok:
@@ -414,6 +422,8 @@ def isolation_run(x_outcome, x_when, x_peer, x_slow, x_acked=True):
         for tok in (b"\x01", b"\x02", b"\x03"):
             view[tok.hex()] = [(m[0], m[1], m[3], m[4], m[5]) for m in finals(w, P1, tok)]
         excs = [core.exc_desc(e) if e else msg for msg, e in w.loop_exceptions()]
+        # X itself, too, gets its one final response while the neighbours are around (counted apart: the baseline has no X)
+        isolation_run.x_finals = [(m[1], m[5]) for m in finals(w, x_peer, b"\x0f")] if x_outcome is not None else None
         return view, excs
     finally:
         w.dispose()
@@ -467,6 +477,10 @@ def job(arg):
                 res.violate(Violation("failure-affects-neighbour", base, view, "pipe.py", case, key="neighbour"))
             if excs:
                 res.violate(Violation("loop-exception", "none", excs, "loop", case, key="iso-exc"))
+            xf = isolation_run.x_finals
+            if acked and len(xf) != 1:
+                res.violate(Violation("final-response-among-neighbours", "exactly one final response to X", [(rc.code_str(c), p) for c, p in xf],
+                                      "tokenmanager.py:process_request", case, key="iso-x-" + ("none" if not xf else "many")))
             res.states.add(core.digest((o, when, peer, slow, acked, sorted(view.items()))))
             res.transitions += 4
             res.outcomes.add(core.digest(("iso", sorted(view.items()))))
@@ -544,6 +558,9 @@ def replay(case, scenario, seed):
         view = iso_normalise(base, view, peer, acked)
         print("     baseline:", base)
         print("     with X:  ", view, excs)
-        return [Violation("failure-affects-neighbour", base, view, "pipe.py", case)] if view != base or excs else []
+        out = [Violation("failure-affects-neighbour", base, view, "pipe.py", case)] if view != base or excs else []
+        if acked and len(isolation_run.x_finals) != 1:
+            out.append(Violation("final-response-among-neighbours", "exactly one final response to X", isolation_run.x_finals, "tokenmanager.py:process_request", case))
+        return out
     run_cell(res, case["outcome"], case["slow"], case["method"], case["con"], case["situation"])
     return [v for v, n in res.violations.values()]
